@@ -1,3 +1,59 @@
-"""Kani side (DESIGN §1, §6).  Placeholder until the harnesses are built."""
+"""Kani side (DESIGN sections 1, 6): harnesses on the REAL crate (MIR of the real functions) in a scratch copy of /repo
+with harness modules appended under cfg(kani).  Results are cached by the hash of the scratch sources."""
+import os, sys, json, hashlib, glob, re, time
+ROOT = os.path.dirname(os.path.dirname(os.path.abspath(__file__)))
+sys.path.insert(0, os.path.join(ROOT, 'kani'))
+import inject
+
+HARNESSES = {
+    'store_delete': {'fn': 'memory_store/store.rs::impl Cache for MemoryStore::delete', 'complete': True, 'timeout': 600,
+                     'what': 'MemoryStore::delete, for ALL u64 request CAS values and all stored meta data: absent -> NotFound; cas 0 or equal -> removed and returned; otherwise KeyExists and nothing changes; the other key untouched; exactly one map access; no map call under a live guard',
+                     'bound': 'none in the quantified scalars (full-domain symbolic u64/u32; loop-free); keys and values are two fixed static byte strings over the array-backed dashmap stand-in'},
+    'store_remove_if': {'fn': 'memory_store/store.rs::impl Cache for MemoryStore::remove_if', 'complete': False, 'timeout': 600,
+                        'what': 'MemoryStore::remove_if removes exactly the selected entries, calls the predicate once per entry and makes no map call while an iteration guard is alive',
+                        'bound': 'at most 2 entries in the store (stand-in capacity 3), unwind 6'},
+}
+
+def tree_hash():
+    h = hashlib.sha256()
+    repo = os.environ.get('VERIF_REPO', '/repo')
+    for f in sorted(glob.glob(os.path.join(repo, 'memcrs/src/**/*.rs'), recursive=True)):
+        h.update(f.encode()); h.update(open(f, 'rb').read())
+    for f in sorted(glob.glob(os.path.join(ROOT, 'kani', '*'))):
+        if os.path.isfile(f): h.update(open(f, 'rb').read())
+    return h.hexdigest()[:24]
+
 def run_harness(name, tier):
-    return {'status': 'undecided', 'reason': 'harness not built', 'cmd': 'cargo kani --harness ' + name}
+    spec = HARNESSES[name]
+    cdir = os.path.join(os.environ.get('VERIF_BUILD') or os.path.join(ROOT, 'build'), 'cache')
+    os.makedirs(cdir, exist_ok=True)
+    cpath = os.path.join(cdir, 'kani.%s.%s.json' % (name, tree_hash()))
+    if os.path.exists(cpath) and not os.environ.get('VERIF_NO_CACHE'):
+        r = json.load(open(cpath)); r['cached'] = True; return r
+    res = inject.run(name, spec['timeout'])
+    out = res['out']
+    r = {'cmd': res['cmd'] + '   (in a scratch copy of /repo with kani/harness_*.rs appended; CARGO_NET_OFFLINE=true)', 'wall': round(res['wall'], 1), 'fn': spec['fn'],
+         'what': spec['what'], 'bound': spec['bound'], 'complete': spec['complete'], 'cached': False}
+    m = re.search(r'SUMMARY:\s*\n\s*\*\*\s*(\d+) of (\d+) failed', out)
+    if 'VERIFICATION:- SUCCESSFUL' in out:
+        r['status'] = 'ok'
+        mm = re.search(r'\*\* 0 of (\d+) failed', out)
+        r['checks'] = int(mm.group(1)) if mm else None
+        if re.search(r'\*\* (\d+) of (\d+) cover properties satisfied', out):
+            a, b = re.search(r'\*\* (\d+) of (\d+) cover properties satisfied', out).groups()
+            if a != b:
+                r['status'] = 'undecided'; r['reason'] = 'vacuity guard: only %s of %s cover properties satisfied' % (a, b)
+    elif 'VERIFICATION:- FAILED' in out:
+        fails = re.findall(r'Failed Checks: (.*)', out)
+        # unwinding assertion failures mean the bound was too small, not a violation
+        real = [f for f in fails if 'unwinding assertion' not in f]
+        if real:
+            r['status'] = 'failed'; r['reason'] = '; '.join(real[:5]); r['output'] = out[-4000:]
+        else:
+            r['status'] = 'undecided'; r['reason'] = 'unwinding bound too small: ' + '; '.join(fails[:3])
+    elif res['rc'] == 124:
+        r['status'] = 'undecided'; r['reason'] = 'CBMC did not finish within %d s' % spec['timeout']
+    else:
+        r['status'] = 'undecided'; r['reason'] = 'kani did not produce a verdict: ' + out[-600:].replace('\n', ' ')
+    json.dump(r, open(cpath, 'w'))
+    return r
